@@ -18,12 +18,32 @@
     rf.cficoeffs  | N | D                                    inverse coefficients q k (= q·var^(−k))
     rf.zp2tf zl pl | zeros | poles | g | x                   `_zp2tf` with list/dict flags (0/1)
     rf.decompose  | x w u T0 | f ; f ; …                     f = R n… : d…  |  E c  |  U
+
+  Round 3 (Model/RatfunFmt.lean; names / operators / indices from Generated/RatfunFmtSrc.lean):
+
+    rf.fmt dtb | mtbsrc          … | F                       divide / multiply top and bottom by the polynomial F
+    rf.fmt asnd_monic | expandcanonical_src | simplify_factors | simplify_terms   …
+    rf.fmt recippartfrac         … | Q | r p o …            partial fractions in 1/var (data of the reciprocal function)
+    rf.fmt rationalize           …                           complex coefficients, REAL point
+    rf.recip      | B | A                                    ->  B' | A'   (coefficients of the function of 1/var)
+    poly.coeffs   | P          poly.normcoeffs | P           all_coeffs() / normalised (highest power first)
+    poly.coeffsok | P | cs | x          SPEC predicate: the highest-first list cs re-assembles to P at x
+    poly.normok   | P | cs | x          SPEC predicate: LC(P)·cs(x) = P(x) and cs starts with 1
+    poly.highsame | cs | x | got        SPEC predicate: the highest-first list cs has the value got at x
+    poly.crosseq  | B1 | A1 | B2 | A2   B1·A2 = B2·A1 as polynomials (B1/A1 and B2/A2 are the same function)
+    rf.coeffs     | B | A      rf.ba | B | A                 ->  b … | a …
+    rf.basame     | B | A | T nu | x w u T0 | b | a          SPEC predicate: b(x)/a(x) is the value and a starts with 1
+    rf.degrees    | B | A                                    ->  Ndegree Ddegree degree is_strictly_proper
+    rf.degspec    | B | A | nd dd deg sp                     SPEC predicate: nd = deg B, dd = deg A, deg = max, sp = (deg B < deg A)
+    roots.merge   | r n r n …  roots.aslist | r n r n …      multiplicity dictionary / list form
 -/
 import Lcapy.Model.Ratfun
+import Lcapy.Model.RatfunFmt
 import Lcapy.Model.PolySynth
 import Lcapy.Generated.RatfunSrc
+import Lcapy.Generated.RatfunFmtSrc
 namespace Lcapy.Driver.C11
-open Lcapy.Poly Lcapy.Ratfun Lcapy.Gen.RatfunSrc
+open Lcapy.Poly Lcapy.Ratfun Lcapy.RatfunFmt Lcapy.Gen.RatfunSrc Lcapy.Gen.RatfunFmtSrc
 
 def splitBar (toks : List String) : List (List String) :=
   let rec go (acc : List String) (out : List (List String)) : List String → List (List String)
@@ -138,7 +158,24 @@ def fmtExpr (name : String) (R : RF CQ) (extra : List (List String)) : Option (R
       match cfCoeffs R.B R.A with
       | .ok cs => some (cfExpr cs)
       | _ => none
+  | "dtb", [f] => (parseList f).bind (fun f => topBottom dtbNumer dtbDenom dtbReturn R (.poly f))
+  | "mtbsrc", [f] => (parseList f).bind (fun f => topBottom mtbNumer mtbDenom mtbReturn R (.poly f))
+  | "asnd_monic", [] => (asNDMonic ndMonicDiv ndMonicD R).map (fun nd => .mul nd.1 (.inv nd.2))
+  | "expandcanonical_src", [] => expandcanonicalSrc (sgn expandcanonicalSign) ecReversed ecDen R
+  | "simplify_factors", [] => simplifyFactors sfInit sfFrom sfOp id (rfFactors R)
+  | "simplify_terms", [] => simplifyTerms stInit stOp id (rfTerms R R.B 0)
   | _, _ => none
+
+def cqRe (c : CQ) : CQ := ⟨c.v.map (fun p => (p.1, 0))⟩
+def cqIm (c : CQ) : CQ := ⟨c.v.map (fun p => (p.2, 0))⟩
+def cqI : CQ := ⟨some (0, 1)⟩
+def toCP (p : List CQ) : CP CQ := ⟨p.map cqRe, p.map cqIm⟩
+def isReal (c : CQ) : Bool := match c.v with | some (_, y) => y == 0 | none => false
+
+def tableStr (t : List (CQ × Nat)) : String := " ".intercalate (t.map (fun rn => s!"{rn.1} {rn.2}"))
+def optStr {α : Type} (f : α → String) : Option α → String
+  | some a => f a
+  | none => "unmodelled"
 
 def parseFactor (l : List String) : Option (Factor CQ) :=
   match l with
@@ -164,6 +201,21 @@ def handle (toks : List String) : Option String :=
             match cfiCoeffs R.B R.A with
             | .ok cs => toString (Lcapy.Synth.cfVal true env.x cs)
             | _ => "unmodelled"
+          else if name == "recippartfrac" then
+            match extra with
+            | [q, ts] =>
+              match parseList q, parseTerms ts with
+              | some q, some ts =>
+                match recippartfrac (sgn partfracSign) recipIn recipOut R q ts env with
+                | some (e, env') => toString (e.eval env')
+                | none => "error"
+              | _, _ => "bad-op"
+            | _ => "bad-op"
+          else if name == "rationalize" then
+            if !isReal env.x then "bad-op" else
+            match rationalize rdMult rdParts rdPows rdOp rdReturn (toCP R.B) (toCP R.A) with
+            | some r => let v := rationalizeValue r env.x; toString (v.1 + cqI * v.2)
+            | none => "unmodelled"
           else
           match fmtExpr name R extra with
           | some e => toString (e.eval env)
@@ -238,6 +290,106 @@ def handle (toks : List String) : Option String :=
           | none => "error"
         | _, _, _, _ => "bad-op"
       | _ => "bad-op"
+  | "rf.recip" :: "|" :: rest => some <|
+      match splitBar rest with
+      | [b, a] =>
+        match parseList b, parseList a with
+        | some b, some a =>
+          match recipRFNamed recipIn (⟨b, a, 0, 0⟩ : RF CQ) with
+          | some R' => listStr R'.B ++ " | " ++ listStr R'.A
+          | none => "unmodelled"
+        | _, _ => "bad-op"
+      | _ => "bad-op"
+  | "poly.coeffs" :: "|" :: rest => some <|
+      match parseList rest with
+      | some p => listStr (allCoeffs p)
+      | none => "bad-op"
+  | "poly.normcoeffs" :: "|" :: rest => some <|
+      match parseList rest with
+      | some p => listStr (normCoeffs normIdx p)
+      | none => "bad-op"
+  | "poly.coeffsok" :: "|" :: rest => some <|
+      match splitBar rest with
+      | [p, cs, [x]] =>
+        match parseList p, parseList cs, CQ.parse x with
+        | some p, some cs, some x => toString (decide (evalHigh cs x = Poly.eval p x))
+        | _, _, _ => "bad-op"
+      | _ => "bad-op"
+  | "poly.normok" :: "|" :: rest => some <|
+      match splitBar rest with
+      | [p, cs, [x]] =>
+        match parseList p, parseList cs, CQ.parse x with
+        | some p, some cs, some x =>
+          toString (decide (lc p * evalHigh cs x = Poly.eval p x) && decide (cs.head? = some 1))
+        | _, _, _ => "bad-op"
+      | _ => "bad-op"
+  | "poly.highsame" :: "|" :: rest => some <|
+      match splitBar rest with
+      | [cs, [x], [got]] =>
+        match parseList cs, CQ.parse x, CQ.parse got with
+        | some cs, some x, some g => toString (decide (evalHigh cs x = g))
+        | _, _, _ => "bad-op"
+      | _ => "bad-op"
+  | "poly.crosseq" :: "|" :: rest => some <|
+      match splitBar rest with
+      | [b1, a1, b2, a2] =>
+        match parseList b1, parseList a1, parseList b2, parseList a2 with
+        | some b1, some a1, some b2, some a2 => toString (polyEq (Poly.mul b1 a2) (Poly.mul b2 a1))
+        | _, _, _, _ => "bad-op"
+      | _ => "bad-op"
+  | "rf.basame" :: "|" :: rest => some <|
+      match splitBar rest with
+      | [b, a, tn, env, bb, aa] =>
+        match parseRF b a tn, parseEnv env, parseList bb, parseList aa with
+        | some R, some env, some bb, some aa =>
+          let v := R.value env
+          if v.v.isNone then "undef"
+          else toString (decide (evalHigh bb env.x / evalHigh aa env.x = v) && decide (aa.head? = some 1))
+        | _, _, _, _ => "bad-op"
+      | _ => "bad-op"
+  | "rf.coeffs" :: "|" :: rest => some <|
+      match splitBar rest with
+      | [b, a] =>
+        match parseList b, parseList a with
+        | some b, some a => optStr (fun ba => listStr ba.1 ++ " | " ++ listStr ba.2) (rfCoeffs Gen.RatfunFmtSrc.rfCoeffs (⟨b, a, 0, 0⟩ : RF CQ))
+        | _, _ => "bad-op"
+      | _ => "bad-op"
+  | "rf.ba" :: "|" :: rest => some <|
+      match splitBar rest with
+      | [b, a] =>
+        match parseList b, parseList a with
+        | some b, some a => optStr (fun ba => listStr ba.1 ++ " | " ++ listStr ba.2) (ba baA baB baIdx (⟨b, a, 0, 0⟩ : RF CQ))
+        | _, _ => "bad-op"
+      | _ => "bad-op"
+  | "rf.degrees" :: "|" :: rest => some <|
+      match splitBar rest with
+      | [b, a] =>
+        match parseList b, parseList a with
+        | some b, some a =>
+          let R : RF CQ := ⟨b, a, 0, 0⟩
+          let d := optStr Deg.toString
+          s!"{d (propNamed ndegreeArg ddegreeArg R "Ndegree")} {d (propNamed ndegreeArg ddegreeArg R "Ddegree")} {d (rfDegree degreeFn degreeArgs R)} {optStr toString (isStrictlyProper ndegreeArg ddegreeArg sproper R)}"
+        | _, _ => "bad-op"
+      | _ => "bad-op"
+  | "rf.degspec" :: "|" :: rest => some <|
+      match splitBar rest with
+      | [b, a, [nd, dd, dg, sp]] =>
+        match parseList b, parseList a with
+        | some b, some a =>
+          let db := sdegree b
+          let da := sdegree a
+          toString (nd == db.toString && dd == da.toString && dg == (Deg.max db da).toString
+            && sp == toString (Deg.lt db da))
+        | _, _ => "bad-op"
+      | _ => "bad-op"
+  | "roots.merge" :: "|" :: rest => some <|
+      match parseTable rest with
+      | some t => optStr tableStr (mergeRoots polesMerge t)
+      | none => "bad-op"
+  | "roots.aslist" :: "|" :: rest => some <|
+      match parseTable rest with
+      | some t => optStr listStr (rootsAsList listRepeat t)
+      | none => "bad-op"
   | "rf.decompose" :: "|" :: rest => some <|
       match splitBar rest with
       | [env, fs] =>
